@@ -206,9 +206,17 @@ class Summ:
         return self.term(s)
 
     def paths(self, body, loop=False):
+        self._depth = getattr(self, '_depth', 0) + 1
+        try:
+            return self._paths(body, loop)
+        finally:
+            self._depth -= 1
+
+    def _paths(self, body, loop=False):
         out = []
         for p in enum_paths(body):
             conds = []
+            order = []          # the decisions and effects of the path in the order they happen (for the path-local numbering of the locals)
             skip = False
             for kind, c in p.seq:
                 if kind == 's':
@@ -225,6 +233,7 @@ class Summ:
                         skip = True
                     continue
                 conds.append(cc)
+                order.append(cc)
             if skip:
                 continue
             conds = value_literals(conds)
@@ -236,11 +245,51 @@ class Summ:
                 if e is None:
                     continue
                 effs.append(e)
+            if self._depth == 1:
+                # the locals that survive in the summary are numbered per path, by first appearance in the order things happen: declaring a local once
+                # before a branch or once in every arm, in this or that order, is the same path
+                m = {}
+                for t in list(order) + list(effs):         # decisions in the order they are made, then effects in statement order
+                    _collect_locals(t, m)
+                conds = [_rename_locals(c, m) for c in conds]
+                effs = [_rename_locals(e, m) for e in effs]
             out.append((tuple(conds), tuple(sorted(effs, key=repr)), 'fall' if (loop and p.end == 'continue') else p.end))      # `continue` = reaching the end of the loop body
-        return tuple(sorted(set(out), key=repr))
+        return PathSet(sorted(set(out), key=repr))
 
     def summary(self):
         return self.paths(self.f.body)
+
+
+class PathSet(tuple):
+    """a set of normalised paths (sorted tuple)"""
+
+
+import re as _re
+_LOCAL = _re.compile(r'^(\$[vs]\d+)((?:\.\d+)?)$')
+
+
+def _collect_locals(t, m):
+    if isinstance(t, str):
+        mo = _LOCAL.match(t)
+        if mo and mo.group(1) not in m:
+            m[mo.group(1)] = '$a%d' % len(m)
+    elif isinstance(t, tuple):
+        for x in t:
+            _collect_locals(x, m)
+
+
+def _rename_locals(t, m):
+    if isinstance(t, str):
+        mo = _LOCAL.match(t)
+        if mo and mo.group(1) in m:
+            return m[mo.group(1)] + mo.group(2)
+        return t
+    if isinstance(t, PathSet):
+        return PathSet(sorted((_rename_locals(tuple(x), m) for x in t), key=repr))
+    if isinstance(t, tuple):
+        r = tuple(_rename_locals(x, m) for x in t)
+        return r
+    return t
 
 
 def diff_summaries(a, b):
@@ -327,8 +376,10 @@ def snapshot_flags(f):
     """bool locals that record a test BEFORE the state it reads is changed and are branched on later (`const bool neg = c < 0; expr = expr / c; ... if (neg)`).
     A path comparison cannot tell at which time such a condition was evaluated: the idiom is outside what the sibling / dual comparison decides."""
     from .expr import LocalEnv
+    from .tables import recorded_flags
     env = LocalEnv(f)
     out = []
+    handled = recorded_flags(f.body) if f.body else {}      # flags that only record a decision are resolved by the path enumeration itself
     for n in f.nodes():
         if n.get('k') != 'IfStmt':
             continue
@@ -337,7 +388,7 @@ def snapshot_flags(f):
             c = c['c'][0]
         if isinstance(c, dict) and c.get('k') == 'DeclRefExpr' and c.get('local') and c.get('refk') == 'Var':
             d = env.decls.get(c.get('dloc'))
-            if d is not None and (d.get('t') or '').replace('const ', '') == 'bool' and isinstance(d.get('init'), dict) and not env.is_alias(d):
+            if d is not None and d.get('loc') not in handled and (d.get('t') or '').replace('const ', '') == 'bool' and isinstance(d.get('init'), dict) and not env.is_alias(d):
                 out.append(d.get('name'))
     return out
 
